@@ -2,7 +2,9 @@ package main
 
 import (
 	"context"
+	"errors"
 	"fmt"
+	"io"
 	"runtime"
 	"strconv"
 	"strings"
@@ -21,10 +23,24 @@ type openCase struct {
 	Method string `json:"method"` // full method name
 	CS     bool   `json:"cs"`     // desc.ClientStreams
 	SS     bool   `json:"ss"`     // desc.ServerStreams
+	Pre    string `json:"pre"`    // state of the caller's context when the call is opened: "live" | "cancel" | "deadline"
 }
 
 func (o openCase) args() string {
-	return o.Via + " " + o.Method + " " + strconv.FormatBool(o.CS) + " " + strconv.FormatBool(o.SS)
+	return o.Via + " " + o.Method + " " + strconv.FormatBool(o.CS) + " " + strconv.FormatBool(o.SS) + " " + o.Pre
+}
+
+// ctx gives the caller's context in the state the case asks for.
+func (o openCase) ctx() (context.Context, context.CancelFunc) {
+	switch o.Pre {
+	case "cancel":
+		ctx, cancel := context.WithCancel(context.Background())
+		cancel()
+		return ctx, cancel
+	case "deadline":
+		return context.WithDeadline(context.Background(), time.Now().Add(-time.Second))
+	}
+	return context.WithTimeout(context.Background(), opTimeout)
 }
 
 var openMethods = []string{svc + "Unary", svc + "ServerStream", svc + "ClientStream", svc + "BidiStream",
@@ -36,6 +52,12 @@ var realShape = map[string][2]bool{ // name -> {clientStreams, serverStreams}
 }
 
 func (o openCase) expect() string {
+	switch o.Pre {
+	case "cancel":
+		return "Canceled" // a call on an ended context fails as such, whatever the method (as over gRPC)
+	case "deadline":
+		return "DeadlineExceeded"
+	}
 	sh, ok := realShape[o.Method]
 	if !ok {
 		return "Unimplemented"
@@ -52,8 +74,22 @@ func (o openCase) expect() string {
 	return "ok"
 }
 
+func errClass(err error) string {
+	switch {
+	case err == nil:
+		return "ok"
+	case err == io.EOF:
+		return "EOF"
+	case errors.Is(err, context.Canceled):
+		return "Canceled"
+	case errors.Is(err, context.DeadlineExceeded):
+		return "DeadlineExceeded"
+	}
+	return status.Code(err).String()
+}
+
 func openWrapper(w *world, o openCase) string {
-	ctx, cancel := context.WithCancel(context.Background())
+	ctx, cancel := o.ctx()
 	defer cancel()
 	var out string
 	fin := within(opTimeout, func() {
@@ -65,16 +101,12 @@ func openWrapper(w *world, o openCase) string {
 			if st.Message() == "no script-id" {
 				out = "ok"
 			} else {
-				out = st.Code().String()
+				out = errClass(err)
 			}
 			return
 		}
 		_, err := w.wrapCC.NewStream(ctx, &grpc.StreamDesc{ClientStreams: o.CS, ServerStreams: o.SS}, o.Method)
-		if err != nil {
-			out = status.Code(err).String()
-		} else {
-			out = "ok"
-		}
+		out = errClass(err)
 	})
 	if !fin {
 		return "hang"
@@ -85,7 +117,7 @@ func openWrapper(w *world, o openCase) string {
 // openGrpc: the class of outcome of the same open over real gRPC (unknown method only; gRPC does not
 // check the shape when the call is opened).
 func openGrpc(w *world, o openCase) string {
-	ctx, cancel := context.WithTimeout(context.Background(), opTimeout)
+	ctx, cancel := o.ctx()
 	defer cancel()
 	if o.Via == "invoke" {
 		err := w.grpcCC.Invoke(ctx, o.Method, &testproto.UnaryRequest{}, &testproto.UnaryResponse{})
@@ -106,7 +138,9 @@ func checkOpen(w *world, mon *lib.Monitor, o openCase) string {
 	mon.Eval(o.args(), true, map[string]any{"case": o, "wrapper": got})
 	if got != want {
 		kind := "shape-mismatch-not-Internal"
-		if want == "Unimplemented" {
+		if o.Pre != "live" {
+			kind = "ended-context-not-reported-as-such"
+		} else if want == "Unimplemented" {
 			kind = "unknown-method-not-Unimplemented"
 		} else if want == "ok" {
 			kind = "matching-call-rejected"
@@ -115,7 +149,15 @@ func checkOpen(w *world, mon *lib.Monitor, o openCase) string {
 			"opening a call: unknown methods must give Unimplemented, a mismatched streaming shape Internal, a matching one must open",
 			o, want, got)
 	}
-	if _, known := realShape[o.Method]; !known && len(o.Method) > 0 && o.Method[0] == '/' && strings.Count(o.Method, "/") == 2 {
+	if o.Pre != "live" {
+		// real gRPC: the same open on an ended context
+		g := openGrpc(w, o)
+		mon.Count("grpc-ended-context:" + g)
+		if g != got {
+			mon.Violate("C13/open/"+o.Via+"/ended-context-differs-from-grpc",
+				"call opened on an already cancelled / expired context: wrapper and real gRPC give different outcomes", o, g, got)
+		}
+	} else if _, known := realShape[o.Method]; !known && len(o.Method) > 0 && o.Method[0] == '/' && strings.Count(o.Method, "/") == 2 {
 		// a well-formed name of a method the server does not have: real gRPC answers Unimplemented too
 		g := openGrpc(w, o)
 		mon.Count("grpc-unknown:" + g)
@@ -129,7 +171,7 @@ func checkOpen(w *world, mon *lib.Monitor, o openCase) string {
 
 func runOpen(f lib.Flags, res *lib.Result, w *world, drv *lib.Driver) {
 	tie := res.Tie("conn-model", "K2",
-		"exhaustive: 9 method names (4 real, unknown in service, other service, malformed, wrong case) x {NewStream with 4 desc flag combinations, Invoke}; Lean Conn.newStream/Conn.invoke result class = real wrapper; every case is non-trivial")
+		"exhaustive: 9 method names (4 real, unknown in service, other service, malformed, wrong case) x {NewStream with 4 desc flag combinations, Invoke} on a live context, and x {Invoke, NewStream with the method's own flags} on an already cancelled / already expired context; Lean Conn.newStream/Conn.invoke result class = real wrapper; every case is non-trivial")
 	tie.Exhaustive = true
 	mon := res.Monitor("open",
 		"unknown method -> Unimplemented (also compared with real gRPC), shape mismatch -> Internal, matching shape opens; oracle = hand-written table of test.proto")
@@ -137,10 +179,15 @@ func runOpen(f lib.Flags, res *lib.Result, w *world, drv *lib.Driver) {
 	for _, m := range openMethods {
 		for _, cs := range []bool{false, true} {
 			for _, ss := range []bool{false, true} {
-				cases = append(cases, openCase{"stream", m, cs, ss})
+				cases = append(cases, openCase{"stream", m, cs, ss, "live"})
 			}
 		}
-		cases = append(cases, openCase{"invoke", m, false, false})
+		cases = append(cases, openCase{"invoke", m, false, false, "live"})
+		for _, pre := range []string{"cancel", "deadline"} {
+			cases = append(cases, openCase{"invoke", m, false, false, pre})
+			sh := realShape[m]
+			cases = append(cases, openCase{"stream", m, sh[0], sh[1], pre})
+		}
 	}
 	var model []string
 	if drv != nil {
